@@ -56,7 +56,7 @@
         res matches Ok(p) ==> p.path == path,
 //@ entry
     proof { lemma_point_states(); axiom_codec(); lemma_open(); }
-//@ closure 1
+//@ closure map_err 1 optional
 |err: IoError| -> (r: Failed)
 //@ global
 // ---- encodings (abstract) and the assumed codec facts -----------------------------------------
